@@ -201,10 +201,15 @@ Definition clear_sh (r : req) : req :=
    any other errno e -> -e.  [offered] = bytes in the (capped) iovec. *)
 Inductive wres := WN (n : N) | WAgain | WErr (code : Z).
 
+(* One write/writev/sendmsg transfers at most MAX_RW_COUNT = INT_MAX & PAGE_MASK bytes on
+   Linux (rw_verify_area / import_iovec), so an answer is 0 <= n <= min(offered, MAX_RW_COUNT);
+   this is also why the `int` return type of uv__try_write and uv_try_write loses nothing. *)
+Definition MAX_RW_COUNT : N := 2147479552.
+
 Fixpoint sys_write (o : list answer) (offered : N) : wres * list answer :=
   match o with
-  | [] => (WN offered, [])
-  | AWrote n :: o' => (WN (N.min n offered), o')
+  | [] => (WN (N.min offered MAX_RW_COUNT), [])
+  | AWrote n :: o' => (WN (N.min (N.min n offered) MAX_RW_COUNT), o')
   | AErr e :: o' =>
       if Pos.eqb e 4 then sys_write o' offered
       else if Pos.eqb e 11 || Pos.eqb e 105 then (WAgain, o')
